@@ -25,7 +25,7 @@ use yash_env::system::r#virtual::{FileBody, Inode, SystemState};
 use yash_env::system::{Close as _, Dup as _, Fcntl as _, FdFlag, Mode, OfdAccess, Open as _, Read as _};
 use yverif::proto::{Opts, emit, guarded, quiet_panics};
 use yverif::rng::Rng;
-use yverif::shell::{BuiltinFuture, Config, VEnv, VSys, run_with};
+use yverif::shell::{BuiltinFuture, Config, Outcome, VEnv, VSys, probe_builtins, read_file, run_with};
 
 thread_local! {
     static STATE: RefCell<Option<Rc<RefCell<SystemState>>>> = const { RefCell::new(None) };
@@ -196,10 +196,116 @@ fn c09_builtins() -> Vec<(&'static str, Builtin<VSys>)> {
 
 type RedirSpec = (i32, String, String);
 
+/// The tail of `yash_cli::run_as_shell_process` for an interactive shell.
+async fn eval_interactive(env: &mut VEnv, source: &yash_cli::startup::args::Source) -> i32 {
+    use std::ops::ControlFlow::{Break, Continue};
+    use yash_env::semantics::Divert;
+    let ref_env = RefCell::new(env);
+    let lexer = match yash_cli::startup::input::prepare_input(&ref_env, source).await {
+        Ok(lexer) => lexer,
+        Err(_) => return 127,
+    };
+    let result = yash_semantics::interactive_read_eval_loop(&ref_env, &mut { lexer }).await;
+    let env = ref_env.into_inner();
+    env.apply_result(result);
+    match result {
+        Continue(())
+        | Break(Divert::Continue { .. })
+        | Break(Divert::Break { .. })
+        | Break(Divert::Return(_))
+        | Break(Divert::Interrupt(_))
+        | Break(Divert::Exit(_)) => yash_semantics::trap::run_exit_trap(env).await,
+        Break(Divert::Abort(_)) => (),
+    }
+    env.exit_status.0
+}
+
+/// `yverif::shell::run_with` for an *interactive* shell: same wiring (it cannot be parametrised from
+/// here), but the `Interactive` option is switched on after `configure_environment` (as `yash -i`
+/// without job control) and the script is run by `interactive_read_eval_loop`, as
+/// `yash_cli::run_as_shell_process` does for an interactive shell: a `Divert::Interrupt` (error in a
+/// special built-in) returns to the loop instead of ending the shell.
+fn run_interactive<Su, Fi, T>(config: Config, setup: Su, finish: Fi) -> (Outcome, Option<T>)
+where
+    Su: FnOnce(&mut VEnv, &Rc<RefCell<SystemState>>) + 'static,
+    Fi: FnOnce(&mut VEnv, &Rc<RefCell<SystemState>>) -> T + 'static,
+    T: 'static,
+{
+    use std::cell::Cell;
+    use yash_cli::startup::args::{InitFile, Run, Source, Work};
+    use yash_cli::startup::configure_environment;
+    use yash_env::Env;
+    use yash_env::system::Concurrent;
+    use yash_env::system::r#virtual::VirtualSystem;
+
+    let system = VirtualSystem::new();
+    let state = Rc::clone(&system.state);
+    let executor = yash_executor::Executor::new();
+    state.borrow_mut().executor = Some(Rc::new(executor.spawner()));
+    let max_rounds = config.max_rounds;
+    let env = Env::with_system(Rc::new(Concurrent::new(system)));
+    let concurrent = Rc::clone(&env.system);
+    let result: Rc<Cell<Option<(i32, T)>>> = Rc::new(Cell::new(None));
+    let result2 = Rc::clone(&result);
+    let state2 = Rc::clone(&state);
+    let main = async move {
+        let mut env = env;
+        let run = Run {
+            work: Work {
+                source: Source::String(config.script.clone()),
+                profile: InitFile::None,
+                rcfile: InitFile::None,
+            },
+            options: config.options.clone(),
+            arg0: config.arg0.clone(),
+            positional_params: config.positional_params.clone(),
+        };
+        let work = configure_environment(&mut env, run).await;
+        env.builtins.extend(probe_builtins());
+        setup(&mut env, &state2);
+        env.options.set(ShellOption::Interactive, State::On);
+        let status = eval_interactive(&mut env, &work.source).await;
+        let t = finish(&mut env, &state2);
+        result2.set(Some((status, t)));
+    };
+    let runner = async move { concurrent.run_virtual(main).await };
+    // SAFETY: single-threaded, as in yash_env::test_helper::in_virtual_system and yverif::shell
+    unsafe { executor.spawn_pinned(Box::pin(runner)) };
+    let mut rounds = 0usize;
+    let mut stuck = false;
+    let mut out: Option<(i32, T)> = None;
+    loop {
+        executor.run_until_stalled();
+        if let Some(r) = result.take() {
+            out = Some(r);
+            break;
+        }
+        rounds += 1;
+        let mut st = state.borrow_mut();
+        if let Some(next) = st.scheduled_wakers.next_wake_time() {
+            st.advance_time(next);
+        }
+        drop(st);
+        if executor.wake_count() == 0 || rounds > max_rounds {
+            stuck = true;
+            break;
+        }
+    }
+    let stdout = read_file(&state, "/dev/stdout").unwrap_or_default();
+    let stderr = read_file(&state, "/dev/stderr").unwrap_or_default();
+    let (exit_status, t) = match out {
+        Some((s, t)) => (s, Some(t)),
+        None => (-1, None),
+    };
+    (Outcome { stdout, stderr, exit_status, stuck }, t)
+}
+
 struct Case {
     noclobber: bool,
     limit: Option<u64>,
     pre: Vec<(i32, char)>,
+    /// the shell is interactive (4th header token `i`)
+    interactive: bool,
     /// (kind, redirections) of each command of the script
     commands: Vec<(String, Vec<RedirSpec>)>,
 }
@@ -233,9 +339,10 @@ fn parse_case(case: &str) -> Option<Case> {
         return None;
     }
     let h: Vec<&str> = parts[0].split_whitespace().collect();
-    if h.len() != 3 {
+    if h.len() != 3 && !(h.len() == 4 && h[3] == "i") {
         return None;
     }
+    let interactive = h.len() == 4;
     let noclobber = h[0].parse::<u32>().ok()? != 0;
     let limit = if h[1] == "-" { None } else { Some(h[1].parse::<u64>().ok()?) };
     let mut pre = vec![];
@@ -256,7 +363,7 @@ fn parse_case(case: &str) -> Option<Case> {
         }
         commands.push((pair[0].to_string(), parse_redirs(pair[1])?));
     }
-    Some(Case { noclobber, limit, pre, commands })
+    Some(Case { noclobber, limit, pre, interactive, commands })
 }
 
 fn operand_text(o: &str) -> String {
@@ -310,6 +417,9 @@ fn command_text(kind: &str, redirs: &[RedirSpec], salt: u64) -> String {
         "empty" => "",
         "paren" => "( fds )",
         "cmdexec" => "command exec",
+        "execnf" => "exec nosuchcmd",
+        "execne" => "exec /tmp/a",
+        "cmdexecnf" => "command exec nosuchcmd",
         "dot" => ". /tmp/s",
         "dotx" => ". /tmp/a/e",
         _ => "exec",
@@ -391,10 +501,8 @@ fn run_case(case: &str) -> (String, String) {
     config.max_rounds = 20_000;
     let pre = c.pre.clone();
     let limit = c.limit;
-    let (outcome, fin) = run_with(
-        config,
-        move |env, state| setup_system(env, state, &pre, limit),
-        |env, state| {
+    let setup = move |env: &mut VEnv, state: &Rc<RefCell<SystemState>>| setup_system(env, state, &pre, limit);
+    let finish = |env: &mut VEnv, state: &Rc<RefCell<SystemState>>| {
             let st = state.borrow();
             let (s, e) = snapshot(&st, env.main_pid);
             let mut files = vec![];
@@ -421,8 +529,9 @@ fn run_case(case: &str) -> (String, String) {
                 files.push(format!("{name}:{text}"));
             }
             (s, e, files.join(","))
-        },
-    );
+    };
+    let (outcome, fin) =
+        if c.interactive { run_interactive(config, setup, finish) } else { run_with(config, setup, finish) };
     STATE.with(|s| *s.borrow_mut() = None);
     let log: Vec<(String, String, Vec<Entry>)> = LOG.with(|l| l.borrow_mut().drain(..).collect());
     let Some((f_text, f_entries, files)) = fin else {
@@ -451,8 +560,13 @@ fn run_case(case: &str) -> (String, String) {
 
         // ---- the property statement on the real run of this command
         let targets: Vec<i32> = redirs.iter().map(|r| r.0).collect();
-        let persists =
-            (kind == "exec" || kind == "cmdexec") && after.map(|a| a.1.starts_with("0:")).unwrap_or(false);
+        // `$?` after the command, or the status the shell ended with at this command
+        let status: i32 = after
+            .and_then(|a| a.1.split_once(':').and_then(|x| x.0.parse().ok()))
+            .unwrap_or(outcome.exit_status);
+        // redirections on `exec` persist when they all succeeded (a redirection error gives 2),
+        // whether or not a utility named as operand could be invoked (then 127 / 126)
+        let persists = EXEC_FAMILY.contains(&kind.as_str()) && status != 2;
         if during.len() > 1 {
             verdict = "FAIL:body-ran-twice".into();
         }
@@ -465,6 +579,25 @@ fn run_case(case: &str) -> (String, String) {
             let was = base.iter().any(|e| e.0 == *fd);
             if *fd >= 10 && !was && !(persists && targets.contains(fd)) {
                 verdict = format!("FAIL:descriptor-{fd}-left-open");
+            }
+        }
+        // "redirections on `exec` persist": what the last redirection asked for is there afterwards
+        if persists {
+            if let Some((fd, op, operand)) = redirs.last() {
+                let entry = left.iter().find(|e| e.0 == *fd);
+                let want_file = matches!(op.as_str(), "in" | "out" | "clob" | "app" | "rw")
+                    && ["a", "b", "m", "n"].contains(&operand.as_str());
+                let closes = (op == "dupin" || op == "dupout") && operand == "-";
+                let was_there = base.iter().find(|e| e.0 == *fd);
+                if want_file && (entry.is_none() || entry == was_there || entry.map(|e| e.2).unwrap_or(true)) {
+                    verdict = format!("FAIL:exec-redirection-of-{fd}-did-not-persist");
+                }
+                if op == "here" && (entry.is_none() || entry == was_there) {
+                    verdict = format!("FAIL:exec-redirection-of-{fd}-did-not-persist");
+                }
+                if closes && entry.is_some() {
+                    verdict = format!("FAIL:exec-close-of-{fd}-did-not-persist");
+                }
             }
         }
         // no CLOEXEC descriptor below 10 is ever visible or left that was not there before
@@ -485,7 +618,13 @@ fn run_case(case: &str) -> (String, String) {
         }
         match after {
             Some(a) => base = a.2.clone(),
-            None => break,
+            None => {
+                // the shell ended at this command; what a persisting `exec` left is the new base
+                if persists {
+                    base = left.clone();
+                }
+                break;
+            }
         }
     }
     // commands after the one at which the shell exited did not run
@@ -510,9 +649,12 @@ fn run_guarded(case: &str) -> (String, String) {
     if o.starts_with("PANIC") { (o.clone(), format!("FAIL:{o}")) } else { out }
 }
 
-const KINDS: [&str; 12] = [
+const KINDS: [&str; 15] = [
     "special", "colon", "regular", "func", "brace", "notfound", "empty", "exec", "paren", "cmdexec", "dot", "dotx",
+    "execnf", "execne", "cmdexecnf",
 ];
+/// kinds whose built-in asks to retain the redirections (`should_retain_redirs`)
+const EXEC_FAMILY: [&str; 5] = ["exec", "cmdexec", "execnf", "execne", "cmdexecnf"];
 const FILE_OPS: [&str; 5] = ["in", "out", "clob", "app", "rw"];
 const FILE_OPERANDS: [&str; 7] = ["a", "b", "m", "n", "d", "e", "E"];
 
@@ -592,7 +734,8 @@ fn gen_case(r: &mut Rng) -> String {
         let rs: Vec<String> = (0..n).map(|_| gen_redir(r)).collect();
         cmds.push(format!("{kind} | {}", rs.join("; ")));
     }
-    format!("{nc} {lim} {pre} | {}", cmds.join(" | "))
+    let inter = if r.chance(1, 3) { " i" } else { "" };
+    format!("{nc} {lim} {pre}{inter} | {}", cmds.join(" | "))
 }
 
 /// every operator × operand on each kind; failing second redirection after a successful first
@@ -741,6 +884,47 @@ fn dot_cases() -> Vec<String> {
     v
 }
 
+/// every path through `execute_builtin` on which `should_retain_redirs` decides between keep and
+/// undo: the `exec` family (no operand / operand not found / not executable, directly and through
+/// `command`), in interactive and non-interactive shells, followed by a command that inspects the
+/// table; and every other kind in an interactive shell (errors of special built-ins do not end it)
+fn exec_cases(thorough: bool) -> Vec<String> {
+    let lists = [
+        "", "4 out b", "4 out b; 2 out m", "1 out m; 2 dupout 1", "0 here -", "3 dupout 1; 1 dupout -",
+        "1 out a; 0 in m", "4 out e", "1 app b; 5 rw n", "0 in a; 0 dupin -", "10 out m", "1 dupout 11",
+    ];
+    let mut v = vec![];
+    for inter in ["", " i"] {
+        for kind in EXEC_FAMILY {
+            for l in lists {
+                for pre in ["-", "3b,11c"] {
+                    for nc in [0, 1] {
+                        if nc == 1 && !l.contains(" out ") {
+                            continue;
+                        }
+                        v.push(format!("{nc} - {pre}{inter} | {kind} | {l} | regular | "));
+                        v.push(format!("{nc} - {pre}{inter} | {kind} | {l} | regular | 1 out m | exec | 4 dupout -"));
+                    }
+                    for lim in [4, 10, 11, 12] {
+                        v.push(format!("0 {lim} -{inter} | {kind} | {l} | special | "));
+                    }
+                }
+            }
+        }
+    }
+    let singles = ["1 out a", "1 out e", "0 in m", "2 dupout 1; 1 out m", "1 out m; 0 in e", "0 here -", "3 dupout 7"];
+    for (i, kind) in KINDS.iter().enumerate() {
+        for (j, l) in singles.iter().enumerate() {
+            if !thorough && (i + j) % 2 != 0 {
+                continue;
+            }
+            v.push(format!("0 - - i | {kind} | {l} | regular | 1 out b"));
+            v.push(format!("0 11 3b i | {kind} | {l} | special | "));
+        }
+    }
+    v
+}
+
 fn main() {
     quiet_panics();
     let o = Opts::from_args();
@@ -757,6 +941,7 @@ fn main() {
     all.extend(exhaustion(o.thorough()));
     all.extend(pairs(o.thorough()));
     all.extend(dot_cases());
+    all.extend(exec_cases(o.thorough()));
     for c in &all {
         if index % o.shard.1 == o.shard.0 {
             let (obs, oracle) = run_guarded(c);
